@@ -1,6 +1,7 @@
 //! C03 - all ShortMessage implementations are observationally equivalent.
 use crate::c02::triple_with_hi;
 use crate::dom::*;
+use crate::check;
 use crate::nd::Nd;
 use crate::oracle as o;
 use crate::witness;
@@ -18,13 +19,13 @@ pub fn obs_equal<N: Nd>(nd: &mut N, hi: u8) {
     let of = observe(&f);
     let ofb = observe(&fb);
     let mut os = observe(&s);
-    assert!(or == of, "C03 raw and byte-getter-only implementor agree on every method");
-    assert!(or == ofb, "C03 raw and to_bytes-overriding implementor agree on every method");
+    check!(or == of, "C03 raw and byte-getter-only implementor agree on every method");
+    check!(or == ofb, "C03 raw and to_bytes-overriding implementor agree on every method");
     let c = o::canon(t.0, t.1, t.2);
-    assert!(os.bytes == c && os.to_bytes == c, "C03 structured reports the canonical bytes");
+    check!(os.bytes == c && os.to_bytes == c, "C03 structured reports the canonical bytes");
     os.bytes = or.bytes;
     os.to_bytes = or.to_bytes;
-    assert!(os == or, "C03 structured agrees with raw on every method except information-free bytes");
+    check!(os == or, "C03 structured agrees with raw on every method except information-free bytes");
     witness!(nd, true, "observed");
 }
 
@@ -50,26 +51,26 @@ pub fn conversions<N: Nd>(nd: &mut N, hi: u8, src: u8) {
 }
 
 fn conv_from<A: ShortMessage>(a: &A, reported: (u8, u8, u8)) {
-    assert!(b3(a) == reported, "C03 source reports the expected bytes");
+    check!(b3(a) == reported, "C03 source reports the expected bytes");
     let direct_raw = raw_of(reported);
     let direct_s = StructuredShortMessage::from_bytes(bytes_of(reported)).ok().unwrap();
     let direct_f = Foreign::from_bytes(bytes_of(reported)).ok().unwrap();
     let direct_fb = ForeignBytes::from_bytes(bytes_of(reported)).ok().unwrap();
     let r: RawShortMessage = a.to_other();
-    assert!(r == direct_raw, "C03 to_other::<Raw> commutes");
-    assert!(RawShortMessage::from_other(a) == direct_raw, "C03 Raw::from_other commutes");
+    check!(r == direct_raw, "C03 to_other::<Raw> commutes");
+    check!(RawShortMessage::from_other(a) == direct_raw, "C03 Raw::from_other commutes");
     let s: StructuredShortMessage = a.to_other();
-    assert!(s == direct_s, "C03 to_other::<Structured> commutes");
-    assert!(StructuredShortMessage::from_other(a) == direct_s, "C03 Structured::from_other commutes");
-    assert!(a.to_structured() == direct_s, "C03 to_structured commutes");
+    check!(s == direct_s, "C03 to_other::<Structured> commutes");
+    check!(StructuredShortMessage::from_other(a) == direct_s, "C03 Structured::from_other commutes");
+    check!(a.to_structured() == direct_s, "C03 to_structured commutes");
     let f: Foreign = a.to_other();
-    assert!(f == direct_f, "C03 to_other::<Foreign> commutes");
-    assert!(Foreign::from_other(a) == direct_f, "C03 Foreign::from_other commutes");
+    check!(f == direct_f, "C03 to_other::<Foreign> commutes");
+    check!(Foreign::from_other(a) == direct_f, "C03 Foreign::from_other commutes");
     let fb: ForeignBytes = a.to_other();
-    assert!(fb == direct_fb, "C03 to_other::<ForeignBytes> commutes");
-    assert!(ForeignBytes::from_other(a) == direct_fb, "C03 ForeignBytes::from_other commutes");
+    check!(fb == direct_fb, "C03 to_other::<ForeignBytes> commutes");
+    check!(ForeignBytes::from_other(a) == direct_fb, "C03 ForeignBytes::from_other commutes");
     // a second hop changes nothing observable
     let back: RawShortMessage = s.to_other();
     let c = o::canon(reported.0, reported.1, reported.2);
-    assert!(b3(&back) == c, "C03 two-hop conversion through structured yields the canonical bytes");
+    check!(b3(&back) == c, "C03 two-hop conversion through structured yields the canonical bytes");
 }
